@@ -71,7 +71,9 @@ def value_layouts():
     out.append((10, fields))
     fields = [("F16", xdoc.ptype_num("float", xdoc.numeric_enc("flt", 16)), 16), ("F32", xdoc.ptype_num("float", xdoc.numeric_enc("flt", 32)), 32),
               ("F32L", xdoc.ptype_num("float", xdoc.numeric_enc("flt", 32, order="lsb")), 32), ("F64", xdoc.ptype_num("float", xdoc.numeric_enc("flt", 64)), 64),
-              ("M32", xdoc.ptype_num("float", xdoc.numeric_enc("flt", 32, fmt="mil1750a")), 32)]
+              ("M32", xdoc.ptype_num("float", xdoc.numeric_enc("flt", 32, fmt="mil1750a")), 32),
+              ("M32Y", xdoc.ptype_num("float", dict(xdoc.numeric_enc("flt", 32, fmt="mil1750a"), spelling="legacy")), 32),     # spelled MIL-1750A
+              ("F32Y", xdoc.ptype_num("float", dict(xdoc.numeric_enc("flt", 32), spelling="legacy")), 32)]
     out.append((11, fields))
     en = [{"raw": crit.tv_int(v), "label": lab} for v, lab in ((0, "OFF"), (1, "ON"), (2, "STANDBY_MODE_LONG_LABEL"), (3, "é"))]
     cal = {"default": poly([(rat(1, 2), 0), (rat(3), 1)]), "context": []}
